@@ -30,6 +30,21 @@ CHECKS = {
          'heap change and validity of every live object against the spec. Component-constructor constraints are validated the same way on a boundary grid.'),
    ref='DESIGN.md section 4 C19, section 3.2',
    note=TB + '; non-finite (overflowed) results are counted as unjudged; ValueError is accepted when a sign-constrained result underflows.'),
+
+ 'C08': dict(
+   technique='TLA+ motor characteristic (Motor.tla) with its documented consequences model-checked on a rational grid + TLC trace validation of recorded compute_torque / compute_electric_current calls (Trace_Motor.tla)',
+   text=('Motor.tla transcribes the documented torque and current laws; TLC checks their stated consequences (standstill, no-load point, continuity across the dead-zone boundary, oddness) exactly on a grid. '
+         'The harness drives real DCMotor objects (constants in random units) over duty cycles including the dead-zone boundary as decimal and float quotient and its +-1,+-2 ulp neighbours, '
+         'and speeds beyond no-load speed; TLC decides every recorded output against the spec in exact arithmetic; neither call may raise.'),
+   ref='DESIGN.md section 4 C08, section 3.3',
+   note=TB + '; the branch taken within 1e-10 relative of the dead-zone boundary is not judged (value still is).'),
+ 'C09': dict(
+   technique='TLA+ gear formulas and flags (Gear.tla; Lewis table, virtual teeth, squared Hertz stress; lemmas model-checked) + TLC trace validation of real gear objects over the complete flag space (Trace_Gear.tla)',
+   text=('Gear.tla states the Lewis interpolation, virtual teeth number, tangential force per role, bending stress (incl. worm-wheel form) and squared Hertz stress with helix angles as rational functions of tan(beta/2); '
+         'TLC checks lemmas (beta=0 reduces to spur, interpolation through the table, monotone, clamped). The harness builds real gears for every teeth number 10..520, every subset of optional data x roles x mated/unmated '
+         '(complete finite flag space) and seeded random parameters in random units; TLC decides flags, ValueError contract and every value.'),
+   ref='DESIGN.md section 4 C09, section 3.4',
+   note=TB + '; tan(beta/2) is computed with math.tan from the angle the object holds; tan 20 deg and pi are 50-digit rationals; the worm thread force is modelled as implemented (O4).'),
 }
 
 ALL = ['C%02d' % i for i in range(1, 21)]
